@@ -122,6 +122,13 @@ def run_continuation(linker, world, cont, state):
     outcomes = []
     for st in cont:
         try:
+            if st["op"] == "compare_two":
+                # documented use of compare_two_records on a model with term-frequency adjustments: "load or pre-compute tf tables" first.
+                # Without them the call applies no adjustment (and warns), with them it does - the one documented history dependence
+                # (C07 treats it the same way) - so a failed call that got as far as computing a TF table would otherwise change the
+                # answer of a call made outside its documented use (thorough tier, acc_label_table on a missing labels table)
+                for col in sorted({c["col"] for c in world["comparisons"] if any("tf" in l for l in c["levels"])}):
+                    linker.table_management.compute_tf_table(col)
             r = H.apply_op(linker, world, st, state)
             outcomes.append({"ok": json.loads(json.dumps(r, default=str))})
         except Exception as e:  # noqa: BLE001
